@@ -186,12 +186,18 @@ def check_sugar(ctx, c):
                      stratum="sugar", case=c)
     else:
         vd = c[1]
-        V = VBuilder(B).val(vd)
+        # (the helper gets one-shot iterables for half of the cases; the general form is built from fields that
+        # were constructed independently of the helper's result)
+        V = VBuilder(B, one_shot=len(json.dumps(vd)) % 2 == 1).val(vd)
         t = type_of(vd)
         from vf.props.c14 import EXPECT_TAG
 
         tag = EXPECT_TAG[vd[0]] if vd[0] in EXPECT_TAG else vd[1]
-        G = val.Sum(tag, tys.Sum([B.row(r) for r in rows_of(t)]), list(V.vals))
+        kids = vd[2] if vd[0] == "right" else vd[1] if vd[0] in ("tuple", "some", "left") else []
+        fields = [VBuilder(B).val(x) for x in kids]
+        if len(fields) != len(V.vals):
+            ctx.disc(None, "sugar-value-fields", vd[0], len(fields), len(V.vals), stratum="sugar", case=c)
+        G = val.Sum(tag, tys.Sum([B.row(r) for r in rows_of(t)]), fields)
         if not (V == G and G == V):
             ctx.disc(None, "sugar-value-eq", vd[0], "== general Sum value", [repr(V), repr(G)],
                      stratum="sugar", case=c)
@@ -267,7 +273,7 @@ def check_value(ctx, case, stratum="value"):
     from vf.oracles import wire
 
     td, vd = case
-    V = VBuilder(Builder()).val(vd)
+    V = VBuilder(Builder(), one_shot=len(json.dumps(vd)) % 3 == 1).val(vd)
     Vo = VBuilder(Builder(opaque=True)).val(vd)
     j = dump(V)
     ctx.count("monitor:value-roundtrip")
